@@ -295,7 +295,7 @@ func (w *c14World) sign(kind string, signer chain.Account, prover string, f *sFi
 	return "", ""
 }
 
-func newC14World(c *chain.Chain, n, m int64, nProv, nSameDomain, nIdle, nUnreg int) *c14World {
+func newC14World(c *chain.Chain, n, m int64, nProv, nSameDomain, nIdle, nUnreg int, ipB string, nSingleLabel int) *c14World {
 	w := &c14World{storSim: newStorSim(c, 5), owner: chain.Acc(0), ip: map[string]string{}, active: map[string]bool{}, forms: map[string]*c14Form{}, n: n, m: m}
 	w.setParams(func(p *storagetypes.Params) {
 		p.ChunkSize, p.ProofWindow, p.CheckWindow, p.CollateralPrice, p.AttestFormSize, p.AttestMinToPass = 1024, 100000, 1000003, 1000, n, m
@@ -314,13 +314,16 @@ func newC14World(c *chain.Chain, n, m int64, nProv, nSameDomain, nIdle, nUnreg i
 	}
 	// the provers under discussion
 	pA := add(10, "https://node.proverdom.com", true)
-	pB := add(11, "https://b.otherprover.net:3333", true)
+	pB := add(11, ipB, true)
 	var act []chain.Account
 	for i := 0; i < nProv; i++ {
 		act = append(act, add(20+i, fmt.Sprintf("https://s%d.dom%d.com", i, i), true))
 	}
 	for i := 0; i < nSameDomain; i++ {
 		act = append(act, add(40+i, fmt.Sprintf("http://x%d.proverdom.com", i), true))
+	}
+	for i := 0; i < nSingleLabel; i++ {
+		act = append(act, add(45+i, fmt.Sprintf("http://node%d:3333", i), true))
 	}
 	for i := 0; i < nIdle; i++ {
 		add(50+i, fmt.Sprintf("https://idle%d.idledom%d.org", i, i), true)
@@ -361,7 +364,9 @@ func TestC14(t *testing.T) {
 	search(t, rec, "history", budget(500, 48000), 30, func(rt *rapid.T) {
 		n := rapid.Int64Range(0, 6).Draw(rt, "formSize")
 		m := rapid.Int64Range(0, n).Draw(rt, "minToPass")
-		w := newC14World(c, n, m, rapid.IntRange(6, 10).Draw(rt, "providers"), rapid.IntRange(0, 2).Draw(rt, "sameDomain"), rapid.IntRange(0, 2).Draw(rt, "idle"), rapid.IntRange(0, 2).Draw(rt, "unregistered"))
+		w := newC14World(c, n, m, rapid.IntRange(6, 10).Draw(rt, "providers"), rapid.IntRange(0, 2).Draw(rt, "sameDomain"), rapid.IntRange(0, 2).Draw(rt, "idle"), rapid.IntRange(0, 2).Draw(rt, "unregistered"),
+			rapid.SampledFrom([]string{"https://b.otherprover.net:3333", "https://b.otherprover.net:3333", "http://localhost:3333", "http://storage-node", "http://10.0.0.5:3333", "https://s0.dom0.com"}).Draw(rt, "proverIP"),
+			rapid.IntRange(0, 2).Draw(rt, "singleLabelHosts"))
 		fail := func(sig, msg string) {
 			if sig != "" {
 				failf(rt, rec, sig, w.trace, "%s", msg)
